@@ -352,6 +352,10 @@ class Dmn(Family):
                 ua2 = 0x7f0000a00000 + 0x10000 * rng.below(4)
                 bad = [r0[0], r0[1], ua2, r0[3], r0[4]]
                 steps.append(st("set_mem_table", [], b"", [bad, [r0[0] + 0x1000 if r0[1] > 0x1000 else r0[0], 0x1000, ua2 + 0x100000, 0, r0[4]]]))
+            elif table and rng.chance(1, 2):
+                # ... or a REM_MEM_REG that names a mapped region with another size: refused, the region stays
+                r0 = rng.choice(table)
+                steps.append(st("rem_mem", [r0[0], r0[1] + 0x1000 if rng.chance(1, 2) else max(0x800, r0[1] - 0x800), r0[2], r0[3], r0[4]]))
             else:
                 steps.append(st("add_mem", bad))
             steps.append(st("reconnect"))
